@@ -238,6 +238,12 @@ def fresh_of_type(st, name, ty, inputs=None):
         v = fresh_bv(name, t[1])
     elif k == "none":
         v = None
+    elif k == "margins":
+        # a pandora.margins.Margins record: four non-negative integers (its __post_init__ refuses negative values)
+        parts = [fresh_int("%s.%s" % (name, f_)) for f_ in ("left", "up", "right", "down")]
+        for p_ in parts:
+            st.assume(p_ >= 0)
+        v = ("Margins",) + tuple(parts)
     elif k == "ilist":
         v = SList([fresh_int("%s[%d]" % (name, i)) for i in range(t[1])], "i")
     elif k == "flist":
